@@ -13,9 +13,9 @@ man = {
     "setup_cmd": "sh tools/setup.sh",
     "hooks": {
         "guard": "verif",
-        "enable": "go test -tags verif -overlay <generated json>: every monitor is an extra file (//go:build verif) mapped into the package directories of /repo at build time; the overlay only adds files, /repo's working tree is compiled as it is. No hook commits exist in /repo.",
+        "enable": "go test -tags verif -overlay <generated json>: every monitor is an extra file (//go:build verif) mapped into the package directories of /repo at build time; the overlay only adds files, /repo's working tree is compiled as it is. One hook lives in /repo: sm2/verif_on.go (tag verif) + sm2/verif_off.go (no-op) + one call in SignHashed, which tells the C08 taint monitor where x1 of [k]G becomes public; the memcheck build additionally uses -tags valgrind (go1.26.8 runtime annotations + client-request stub injected by the overlay).",
         "baseline_off_cmd": "cd /repo && GOFLAGS=-mod=mod go test -json -vet=off -count=1 -timeout 25m ./...",
-        "source_commits": [],
+        "source_commits": checks.HOOK_COMMITS,
         "add_only": True,
     },
     "engines": checks.ENGINES,
